@@ -34,11 +34,23 @@ def load_sources(root='/repo'):
 
 
 def list_templates(root='/repo'):
+    """{file name: text} of bert_e/templates (comment templates are part of
+    the analysed program: writer/reader agreement rules read them)."""
     d = os.path.join(root, 'bert_e', 'templates')
+    out = {}
     try:
-        return sorted(os.listdir(d))
+        names = sorted(os.listdir(d))
     except OSError:
-        return []
+        return out
+    for n in names:
+        p = os.path.join(d, n)
+        if os.path.isfile(p):
+            try:
+                with open(p, encoding='utf-8') as fh:
+                    out[n] = fh.read()
+            except (OSError, UnicodeDecodeError):
+                out[n] = ''
+    return out
 
 
 def modname_of(path):
@@ -163,7 +175,7 @@ def walk_local(node, include_root=True):
 class Program:
     def __init__(self, sources, templates=None):
         self.sources = sources
-        self.templates = templates if templates is not None else []
+        self.templates = templates if templates is not None else {}
         self.modules = {}
         self.by_name = {}
         self.funcs = {}
